@@ -37,7 +37,7 @@ static uint64_t prng;
 static long run_budget;
 static int tail_preempt;
 static long step_budget;
-static int burst_id; static long burst_len, burst_used[MV_MAXP], burst_total;
+static int burst_id, burst_ids[9]; static long burst_len, burst_used[MV_MAXP], burst_total;
 unsigned long mv_nburst;
 static int noise_level;
 static uint32_t case_seed;
@@ -192,6 +192,7 @@ static void do_point(int id) {
   }
 }
 
+static int is_burst_id(int id) { for (int i = 0; burst_ids[i]; i++) if (burst_ids[i] == id) return 1; return 0; }
 static void do_spin(int id) {
   int mode = g_mode;
   if (mode == MV_OFF) return;
@@ -212,7 +213,7 @@ static void do_spin(int id) {
     fwait(&turn[me * 16]);
     return;
   }
-  if (id == burst_id && burst_used[me] < burst_len && burst_total < 2600000) {
+  if (burst_len && (id == burst_id || is_burst_id(id)) && burst_used[me] < burst_len && burst_total < 2600000) {
     /* poll again in place: the same schedule as every other participant being slow for that long */
     if (burst_used[me]++ == 0) { H(id * 64 + me + 11); mv_hits[id & (MV_NIDS - 1)]++; }
     burst_total++; mv_nburst++;
@@ -277,6 +278,7 @@ static void reset_common(const mv_config * cfg) {
   tail_preempt = cfg->tail_preempt;
   step_budget = cfg->step_budget > 0 ? cfg->step_budget : 5000000;
   burst_id = cfg->burst_len > 0 ? cfg->burst_id : -1; burst_len = cfg->burst_len; burst_total = 0;
+  for (int i = 0; i < 8; i++) burst_ids[i] = cfg->burst_len > 0 ? cfg->burst_ids[i] : 0; burst_ids[8] = 0;
   for (int i = 0; i < MV_MAXP; i++) burst_used[i] = 0;
   noise_level = cfg->noise_level;
   finished = 0;
